@@ -116,6 +116,8 @@ func (p *loginPeer) keyBytes(a string) []byte {
 		return pem.EncodeToMemory(&pem.Block{Type: "PUBLIC KEY", Bytes: b})
 	case "trailing":
 		return append(pk1, []byte("trailing junk")...)
+	case "emptykey":
+		return []byte{}
 	}
 	return pk1
 }
@@ -616,6 +618,9 @@ func loginMain(args []string) error {
 		var s loginScn
 		if err := json.Unmarshal([]byte(*desc), &s); err != nil {
 			return err
+		}
+		if s.KeyBits == 0 {
+			fill(&s)
 		}
 		runLogin(tr, rng, &s)
 	}
